@@ -1,7 +1,7 @@
 """C17 - remote property access honours declared type and access mode.
 
 Deductive part (every declaration, value and table state):
-  * DBusProperty.__set__ : the value is stored under the property's key (interface + name) and nothing else in the store
+  * DBusProperty.__set__ : the value is stored under the property's key (the pair interface, name) and nothing else in the store
     changes; exactly one PropertiesChanged(interface, {name: value typed by the declared signature}, []) is emitted when the
     declaration says emits == 'true', none otherwise
   * DBusProperty.__get__ : the value stored under the key (None when never assigned)
@@ -94,7 +94,7 @@ def build_world():
     from txdbus import objects
     w = World()
     w.add_class(ClassSpec(IP, None, {'access': STR, 'sig': STR, 'emits': STR, 'name': STR}))
-    w.add_class(ClassSpec(DP, objects.DBusProperty, {'pname': STR, 'interface': Opt(STR), 'key': Opt(STR), 'attr_name': Opt(STR), 'iprop': Opt(Ref(IP))}))
+    w.add_class(ClassSpec(DP, objects.DBusProperty, {'pname': STR, 'interface': Opt(STR), 'key': Opt(KEY2), 'attr_name': Opt(STR), 'iprop': Opt(Ref(IP))}))
     w.add_class(ClassSpec(O, objects.DBusObject, {'_dbusProperties': DictT(STR, OPAQUE), '_dbusProperties?set': BOOL,
                                                   'g_emitted': INT, 'g_sig_name': STR, 'g_sig_iface': STR, 'g_sig_key': STR, 'g_sig_val': OPAQUE, 'g_sig_inval': INT},
                           methods={'_getProperty': _getProperty, '_iterIFaceCaches': _iterIFaceCaches, 'emitSignal': emitSignal}))
@@ -102,7 +102,7 @@ def build_world():
     def resolved(pv):
         # a descriptor whose interface binding is known (after the caches were built): interface, declaration, consistent key
         return z3.And(z3.Not(pv.interface.none), z3.Not(pv.iprop.none),
-                      z3.Or(pv.key.none, pv.key.val.term == z3.Concat(pv.interface.val.term, pv.pname)))
+                      z3.Or(pv.key.none, pv.key.val.term == key_of(pv)))
 
     def gp_post(cx):
         r = cx.result
@@ -128,7 +128,19 @@ def build_world():
              assumed=True)
 
     def key_of(pv):
-        return z3.Concat(pv.interface.val.term, pv.pname)
+        # the slot of a property: the PAIR (interface name, property name) - two properties share a slot only if both agree
+        from pyvc.values import key2
+        return key2(pv.interface.val.term, pv.pname)
+
+    def other_slot(cx, pv):
+        """the slot of an arbitrary OTHER property (skolem interface / name, differing in at least one of the two)"""
+        from pyvc.values import key2, key2_inverse_facts
+        i2, n2 = cx.ctx.skolem('other_iface', StringSort), cx.ctx.skolem('other_pname', StringSort)
+        k2 = key2(i2, n2)
+        k = key_of(pv)
+        cx.ctx.assume(key2_inverse_facts(k2, i2, n2))          # Python tuple equality: (a, b) == (c, d) iff a == c and b == d
+        cx.ctx.assume(key2_inverse_facts(k, pv.interface.val.term, pv.pname))
+        return z3.Or(i2 != pv.interface.val.term, n2 != pv.pname), k2
 
     def desc_pre(cx):
         pv = cx.old(cx.args['self'])
@@ -144,10 +156,14 @@ def build_world():
         base_dom = z3.If(had, o._dbusProperties.dom, z3.K(StringSort, False))
         emits = ipv.emits == sv('true')
         basic = z3.Or([ipv.sig == sv(c) for c in CODES])
-        return [('stored under interface + name', z3.And(z3.Select(n._dbusProperties.dom, k), z3.Select(n._dbusProperties.vals[0], k) == val,
+        return [('stored under the pair (interface, name)', z3.And(z3.Select(n._dbusProperties.dom, k), z3.Select(n._dbusProperties.vals[0], k) == val,
                                                          n.__getattr__('_dbusProperties?set'))),
                 ('no other property changes', z3.And(n._dbusProperties.dom == z3.Store(base_dom, k, True),
                                                      z3.Implies(had, n._dbusProperties.vals[0] == z3.Store(o._dbusProperties.vals[0], k, val)))),
+                ('a property of another interface or of another name keeps its value',
+                 (lambda differs, k2: z3.Implies(differs, z3.And(z3.Select(n._dbusProperties.dom, k2) == z3.Select(base_dom, k2),
+                                                                 z3.Implies(z3.And(had, z3.Select(o._dbusProperties.dom, k2)),
+                                                                            z3.Select(n._dbusProperties.vals[0], k2) == z3.Select(o._dbusProperties.vals[0], k2)))))(*other_slot(cx, pv))),
                 ('exactly one PropertiesChanged naming interface, property and the value typed by the declaration - iff the declaration emits changes',
                  z3.If(emits, z3.And(n.g_emitted == o.g_emitted + 1, n.g_sig_name == sv('PropertiesChanged'), n.g_sig_key == pv.pname, n.g_sig_inval == 0, n.g_sig_iface == pv.interface.val.term,
                                      n.g_sig_val == z3.If(basic, typed(ipv.sig, val), val)),
@@ -273,7 +289,7 @@ def build(tier='quick'):
     sp = Spec('C17', w, lambda world: Models17(world), targets, replay=replay,
               bounded=[{'name': 'property-history', 'run': run_bounded}],
               trusted=['the descriptor protocol: obj.<attr> / setattr(obj, attr, v) on a class attribute that is a DBusProperty calls its __get__ / __set__ (Python data model)'],
-              assumed=['_getProperty (reflection over the per-class interface caches) returns None or a bound descriptor: its interface and declaration are set, its key - once set - is interface + name, and it is the class attribute named by its attr_name (registry invariant of _cacheInterfaces); WHICH descriptor it returns for a name is decided by the bounded part',
+              assumed=['_getProperty (reflection over the per-class interface caches) returns None or a bound descriptor: its interface and declaration are set, its key - once set - is the pair (interface, name), and it is the class attribute named by its attr_name (registry invariant of _cacheInterfaces); WHICH descriptor it returns for a name is decided by the bounded part',
                        'emitSignal records the emitted signal in ghost fields; its own lookup of the PropertiesChanged signal and the message construction are C10 / C03 matters',
                        'getAllProperties / GetAll: the inner function addp (one property) is verified; the loops over the reflection caches that feed it are bounded-only',
                        'values are opaque; "typed by the declaration" is the wrapper class of the basic type code applied to the value (variantClassMap, pinned by the C19 lemmas)'],
